@@ -34,8 +34,9 @@ BUDGET = {'quick': 240, 'thorough': 1500}
 
 def shards(tier):
     q = tier == 'quick'
-    out = [{'kind': 'hist', 'n': 120 if q else 2500} for _ in range(14)]
+    out = [{'kind': 'hist', 'n': 120 if q else 2500} for _ in range(12)]
     out += [{'kind': 'interact', 'n': 12 if q else 300} for _ in range(2)]
+    out += [{'kind': 'drain', 'n': 40 if q else 800} for _ in range(2)]
     return out
 
 
@@ -72,8 +73,87 @@ def check_case(case, col=None):
         col.case(case, nt)
 
 
+@st.composite
+def drain_cases(draw):
+    return {'transport': draw(st.sampled_from(['popen', 'popen', 'pty'])), 'text_mode': draw(st.booleans()),
+            'size': draw(st.sampled_from([0, 1, 7, 300, 1500, 3000])), 'maxread': draw(st.sampled_from([1, 3, 7, 100, 2000])),
+            'wait': draw(st.booleans()), 'style': draw(st.sampled_from(['expect_eof', 'rnb', 'read'])),
+            'logs': sorted(draw(st.sets(st.sampled_from(['logfile', 'logfile_read']), min_size=1, max_size=2)))}
+
+
+def check_drain(case, col=None):
+    """The child writes its output and exits; the reader drains it afterwards in small reads.  Everything
+    delivered must be in the read logs, also what is handed out after the end of the stream was seen."""
+    import time
+    from ..engines import peers
+    from pexpect.exceptions import EOF, TIMEOUT
+    from ..common import guard
+    text_mode = case['text_mode']
+    body = ('l\xe9-' * (case['size'] // 3 + 1))[:case['size']] if text_mode else 'abc-' * (case['size'] // 4 + 1)
+    body = body[:case['size']]
+    data = body.encode('utf-8')
+    actions = ([['w', data.hex()]] if data else []) + [['exit', 0]]
+    kw = {'maxread': case['maxread'], 'timeout': 20}
+    if text_mode:
+        kw['encoding'] = 'utf-8'
+    if case['transport'] == 'popen':
+        child, ps = peers.popen_peer(actions, record=False, wait_ready=False, **kw)
+    else:
+        child, ps = peers.pty_peer(actions, raw=True, record=False, wait_ready=False, **kw)
+    T = str if text_mode else bytes
+    logs = {}
+    try:
+        for name in case['logs']:
+            logs[name] = peers.RecLog()
+            setattr(child, name, logs[name])
+        if case['wait']:
+            time.sleep(0.08)          # the whole output and the end-of-stream marker are already queued
+        got = T()
+        where = 'draining a finished %s child (%s, maxread %d)' % (case['transport'], case['style'], case['maxread'])
+        try:
+            with guard(where, allow=(EOF, TIMEOUT)):
+                if case['style'] == 'expect_eof':
+                    child.expect(EOF)
+                    got = child.before
+                elif case['style'] == 'read':
+                    got = child.read()
+                else:
+                    while True:
+                        got += child.read_nonblocking(case['maxread'], 20)
+        except EOF:
+            pass
+        except TIMEOUT:
+            raise Violation('drain-timeout', '%s: TIMEOUT' % where)
+        want = body if text_mode else data
+        if got != want:
+            raise Violation('drain-content', '%s: delivered %d characters, the child wrote %d' % (where, len(got), len(want)))
+        for name, lg in logs.items():
+            joined = lg.joined(T())
+            if joined != got:
+                raise Violation('log-differs:' + name, '%s: %s holds %d characters, %d were delivered (first difference at %d)'
+                                % (where, name, len(joined), len(got),
+                                   next((i for i in range(min(len(joined), len(got))) if joined[i] != got[i]), min(len(joined), len(got)))))
+            if not all(lg.flushed):
+                raise Violation('log-not-flushed:' + name, '%s: a write to %s was not flushed' % (where, name))
+    finally:
+        if case['transport'] == 'popen':
+            peers.reap_popen(child)
+        else:
+            peers.reap(child)
+        ps.cleanup()
+    if col is not None:
+        col.label('drain-after-exit:' + case['transport'])
+        col.case(case, case['size'] > case['maxread'])
+
+
 def run_shard(spec, seed, idx, deadline_ts):
     col = Collector()
+    if spec['kind'] == 'drain':
+        def dbody(case, c):
+            with case_watchdog(120, 'C11 drain'):
+                check_drain(case, c)
+        run_batches(dbody, drain_cases(), spec['n'], seed * 1000 + idx, col, batch=50, shrink=False, deadline_ts=deadline_ts)
+        return col
     if spec['kind'] == 'interact':
         try:
             from . import c15
@@ -90,6 +170,8 @@ def run_shard(spec, seed, idx, deadline_ts):
 
 
 def replay(case, spec=None):
+    if spec and spec.get('kind') == 'drain':
+        return check_drain(case)
     if spec and spec.get('kind') == 'interact':
         from . import c15
         return c15.replay_logging(case)
